@@ -346,7 +346,9 @@ let run_line (lineno : int) (tok : string array) =
    | "wvt" -> wr 1 (vt_write (zi 2))
    | "bytes" -> let bs = wbytes (get outsT (h 1)).st in add (Printf.sprintf "%d %s" (List.length bs) (hex_of bs))
    | "in" | "inpipe" -> let bs = unhex tok.(2) in Hashtbl.replace insT (h 1) { rest = bs; total = List.length bs }; st 0
-   | "inw" | "intrunc" | "inpatch" | "inapp" ->
+   | "inw" | "intrunc" | "inpatch" | "inapp" | "pinw" | "pinapp" ->
+     (* pinw / pinapp: the same bytes behind a stream that cannot seek - no difference for the model *)
+     let op = if op = "pinw" then "inw" else if op = "pinapp" then "inapp" else op in
      let bs = wbytes (get outsT (h 2)).st in
      let n = List.length bs in
      let bs' =
